@@ -39,6 +39,7 @@ def run(ctx):
     from . import C15
     from .C19 import _Only
     ctx.rule("R6", "the byte scan used for deferral is exact (C15 R2/R3): flag pairs, immediates skipped, false only at end of input")
+    C15.run(_Only(ctx, "R1", "R6"))
     C15.run(_Only(ctx, "R2", "R6"))
     C15.run(_Only(ctx, "R3", "R6"))
     ctx.rule("R7", "per-key overlay: a mutated key yields the mutation's value, any other key one word-vector read from the pre-state at that key; the key advances by next_key (carry from the last word) once per value")
